@@ -18,6 +18,8 @@
  *      yamlinto / yamlintof (export root, import the text into aux, which may hold a tree already)
  *      yamlimp T (import the YAML text T into root, which may hold a tree already)
  *      calrt    (vnacal mode: vnacal_save to memory / vnacal_load, digest of the loaded roots)
+ *      hdump    (white-box: payload H:<hash size>,<count>|<bucket>:<hexkey>,<hexkey>;... of the root map,
+ *                compared with coq/PropTree/HashModel.v run on CRC-32C by checks/C13.py)
  */
 #define _GNU_SOURCE
 #include <errno.h>
@@ -347,6 +349,25 @@ int main(int argc, char **argv)
 	    errno = 0;
 	    ret = vnaproperty_copy(&aux, s);
 	    e = errno;
+	} else if (strcmp(w[0], "hdump") == 0) {
+	    /* white-box: the hash table of the root map (size, count, keys of every chain in link order) */
+	    const vnaproperty_t *r = ROOT();
+	    if (r == NULL || r->vpr_type != VNAPROPERTY_MAP) {
+		fputs("H:none", po);
+	    } else {
+		const vnaproperty_map_t *m = (const vnaproperty_map_t *)r;
+		fprintf(po, "H:%zu,%zu|", m->vpm_hash_size, m->vpm_count);
+		for (size_t bk = 0, first = 1; bk < m->vpm_hash_size; ++bk) {
+		    const vnaproperty_map_element_t *c = m->vpm_hash_table[bk];
+		    if (c == NULL) continue;
+		    fprintf(po, "%s%zu:", first ? "" : ";", bk);
+		    first = 0;
+		    for (int f2 = 1; c != NULL; c = c->vme_hash_next, f2 = 0) {
+			if (!f2) fputs(",", po);
+			hex(po, c->vme_pair.vmpr_key);
+		    }
+		}
+	    }
 	} else if (strcmp(w[0], "quote") == 0) {
 	    char *q = vnaproperty_quote_key(a);
 	    ret = q ? 0 : -1;
